@@ -52,7 +52,7 @@ func recvTypeName(o *types.Func) string {
 	if pt, ok := t.(*types.Pointer); ok {
 		t = pt.Elem()
 	}
-	if n, ok := t.(*types.Named); ok {
+	if n, ok := types.Unalias(t).(*types.Named); ok {
 		return n.Obj().Name()
 	}
 	return ""
